@@ -136,6 +136,7 @@ impl Scenario for S4 {
             ("jump", sw.u_or("w_jump", 0)),
             ("clonefrom", if mix == "C18" { 0 } else { sw.u_or("w_clone", 1).min(1) }),
             ("views", 1),
+            ("badarg", if mix == "C18" { 0 } else { 1 }),
         ];
         let total: u128 = wts.iter().map(|x| x.1).sum();
         let mut c = r.below(total.max(1) as u64) as u128;
@@ -190,6 +191,7 @@ impl Scenario for S4 {
                 let (k, _) = super::s6_counters::pick_k(r, t.ty);
                 Op::new(t32, "jump", &[("blocks", k)])
             }
+            "badarg" => Op::new(t32, "badarg", &[]),
             "views" => {
                 let b = TYPES[t.ty].block as u64;
                 Op::new(t32, "views", &[("len", r.range(0, 3 * b) as u128), ("grow", *r.pick(&[1u64, b - 1, b, b + 1, 2 * b + 3]) as u128), ("dseed", st.data.next() as u128)])
@@ -549,6 +551,21 @@ fn step_inner(w: &mut World, ti: usize, op: &Op, stats: &mut Stats, rh: &mut u64
             t.cloned = false;
             t.reused = false;
             t.multi_with_fill = false;
+            Step::Done
+        }
+        "badarg" => {
+            // update() with an argument whose as_ref() panics (no bytes were supplied); the caller recovers and keeps
+            // using the instance: it must behave as if the call had not happened
+            let t = &mut w.tasks[ti];
+            stats.hit("op.update_with_panicking_as_ref_then_continue");
+            let real = t.real.as_mut().unwrap();
+            let r = guarded(|| real.update_views(&[]));
+            if r.is_ok() {
+                stats.hit("probe.update_did_not_call_as_ref");
+            }
+            if fill_class(t) >= 2 {
+                stats.hit("probe.failed_update_on_partly_filled_buffer");
+            }
             Step::Done
         }
         "views" => {
